@@ -11,7 +11,14 @@
 
    Numbers are Z; `u32` fields never overflow in the modelled code: `s.checked_add(1)` is the
    explicit [TPanic], `time -= 1` happens only for time >= 2.
-   No proofs here (proofs/TimerProofs.v, props/C34.v). *)
+   No proofs here (proofs/TimerProofs.v, props/C34.v).
+
+   For importers (the simulator model): record [timer] (t_range t_time t_vect t_prio t_enabled
+   t_drawn), [srange] (r_start r_end r_incl; range_lo / range_hi / range_nonempty / in_range),
+   [timer_new], [set_range], [set_exact], [get_remaining], [reset_remaining], [timer_io_reset],
+   [timer_poll g t : tres (timer * option (vect * priority))] — the ExternalDevice methods —
+   and the outcome type [tres] (TOk / TPanic / TBadDraw).  The draw oracle [g : nat -> Z] is per timer
+   (each timer owns its generator); [draw_oracle l] turns a list of observed draws into one. *)
 From Coq Require Import ZArith List Bool String.
 From Model Require Import Tree.
 Import ListNotations.
@@ -84,7 +91,7 @@ Definition reset_remaining (g : nat -> Z) (t : timer) : tres timer :=
   | TPanic => TPanic
   | TBadDraw => TBadDraw
   end.
-Definition io_reset := reset_remaining.
+Definition timer_io_reset := reset_remaining.
 
 (* TimerDevice::new(seed, range, vect, priority): disabled, first count drawn at once *)
 Definition timer_new (g : nat -> Z) (s e : bound) (vect prio : Z) : tres timer :=
@@ -108,7 +115,7 @@ Definition timer_interrupt (t : timer) : Z * Z := (t_vect t, Z.min (t_prio t) 7)
 
 (* poll_interrupt.  At time 0 a fresh count is drawn; a fresh count of 0 fires at once (the
    repaired code: no poll lies between that interrupt and the previous one). *)
-Definition poll (g : nat -> Z) (t : timer) : tres (timer * option (Z * Z)) :=
+Definition timer_poll (g : nat -> Z) (t : timer) : tres (timer * option (Z * Z)) :=
   if negb (t_enabled t) then TOk (t, None)
   else if t_time t =? 0 then
     match reset_remaining g t with
@@ -120,13 +127,13 @@ Definition poll (g : nat -> Z) (t : timer) : tres (timer * option (Z * Z)) :=
   else TOk (with_time t (t_time t - 1) (t_drawn t), None).
 
 (* n consecutive polls: which of them raised an interrupt, and the state afterwards *)
-Fixpoint poll_n (g : nat -> Z) (t : timer) (n : nat) : tres (list bool * timer) :=
+Fixpoint timer_poll_n (g : nat -> Z) (t : timer) (n : nat) : tres (list bool * timer) :=
   match n with
   | O => TOk ([], t)
   | S k =>
-    match poll g t with
+    match timer_poll g t with
     | TOk (t', f) =>
-      match poll_n g t' k with
+      match timer_poll_n g t' k with
       | TOk (l, t'') => TOk ((match f with Some _ => true | None => false end) :: l, t'')
       | TPanic => TPanic
       | TBadDraw => TBadDraw
@@ -137,20 +144,20 @@ Fixpoint poll_n (g : nat -> Z) (t : timer) (n : nat) : tres (list bool * timer) 
   end.
 
 (* ---- histories: the public operations of a timer ---- *)
-Inductive top :=
+Inductive timer_op :=
 | OPoll | OEnable | ODisable | OResetRemaining | OIoReset
 | OSetRange (s e : bound) | OSetExact (n : Z) | OSetVect (v : Z) | OSetPrio (p : Z).
 
 (* one operation: new state and the interrupt it returned (only OPoll can return one).
    A panicking operation leaves the timer as it was (the unwind happens before any assignment). *)
-Definition step (g : nat -> Z) (t : timer) (o : top) : tres (timer * option (Z * Z)) :=
+Definition timer_step (g : nat -> Z) (t : timer) (o : timer_op) : tres (timer * option (Z * Z)) :=
   let lift (r : tres timer) := match r with TOk t' => TOk (t', None) | TPanic => TPanic | TBadDraw => TBadDraw end in
   match o with
-  | OPoll => poll g t
+  | OPoll => timer_poll g t
   | OEnable => TOk (with_enabled t true, None)
   | ODisable => TOk (with_enabled t false, None)
   | OResetRemaining => lift (reset_remaining g t)
-  | OIoReset => lift (io_reset g t)
+  | OIoReset => lift (timer_io_reset g t)
   | OSetRange s e => lift (set_range t s e)
   | OSetExact n => lift (set_exact t n)
   | OSetVect v => TOk (with_vect t v, None)
@@ -158,29 +165,29 @@ Definition step (g : nat -> Z) (t : timer) (o : top) : tres (timer * option (Z *
   end.
 
 (* observation after an operation *)
-Inductive obs := ObsOk (fired : option (Z * Z)) (remaining : Z) (enabled : bool) | ObsPanic | ObsBadDraw.
+Inductive timer_obs := ObsOk (fired : option (Z * Z)) (remaining : Z) (enabled : bool) | ObsPanic | ObsBadDraw.
 
 (* run a history; a panic is an observation and the history goes on from the unchanged state;
    a bad draw ends it *)
-Fixpoint run (g : nat -> Z) (t : timer) (ops : list top) : list obs :=
+Fixpoint timer_run (g : nat -> Z) (t : timer) (ops : list timer_op) : list timer_obs :=
   match ops with
   | [] => []
   | o :: r =>
-    match step g t o with
-    | TOk (t', f) => ObsOk f (t_time t') (t_enabled t') :: run g t' r
-    | TPanic => ObsPanic :: run g t r
+    match timer_step g t o with
+    | TOk (t', f) => ObsOk f (t_time t') (t_enabled t') :: timer_run g t' r
+    | TPanic => ObsPanic :: timer_run g t r
     | TBadDraw => [ObsBadDraw]
     end
   end.
 
 (* state after a history (same conventions) *)
-Fixpoint run_state (g : nat -> Z) (t : timer) (ops : list top) : timer :=
+Fixpoint timer_run_state (g : nat -> Z) (t : timer) (ops : list timer_op) : timer :=
   match ops with
   | [] => t
   | o :: r =>
-    match step g t o with
-    | TOk (t', _) => run_state g t' r
-    | TPanic => run_state g t r
+    match timer_step g t o with
+    | TOk (t', _) => timer_run_state g t' r
+    | TPanic => timer_run_state g t r
     | TBadDraw => t
     end
   end.
@@ -193,7 +200,7 @@ Definition as_bound (t : tree) : option bound :=
   | L [I 1; I z] => Some (BExcl z)
   | _ => None
   end.
-Definition as_top (t : tree) : option top :=
+Definition as_top (t : tree) : option timer_op :=
   match t with
   | L [I 0] => Some OPoll
   | L [I 1] => Some OEnable
@@ -208,14 +215,14 @@ Definition as_top (t : tree) : option top :=
   end.
 Definition t_fired (f : option (Z * Z)) : tree :=
   match f with Some (v, p) => L [I v; I p] | None => L [] end.
-Definition t_obs (o : obs) : tree :=
+Definition t_obs (o : timer_obs) : tree :=
   match o with
   | ObsOk f rem en => t_ok [t_fired f; I rem; t_bool en]
   | ObsPanic => t_panic
   | ObsBadDraw => L [I 8]
   end.
 (* the draw oracle given as a list; past its end the draw is -1, outside every range *)
-Definition oracle (ds : list Z) : nat -> Z := fun k => nth k ds (-1).
+Definition draw_oracle (ds : list Z) : nat -> Z := fun k => nth k ds (-1).
 
 (* timer.run ((start end vect prio) draws ops) -> (new-result observations...) *)
 Definition op_run (t : tree) : tree :=
@@ -223,8 +230,8 @@ Definition op_run (t : tree) : tree :=
   | L [L [s; e; I vect; I prio]; ds; ops] =>
     match as_bound s, as_bound e, as_zs ds, as_list as_top ops with
     | Some s', Some e', Some ds', Some ops' =>
-      match timer_new (oracle ds') s' e' vect prio with
-      | TOk t0 => L (t_ok [I (t_time t0)] :: map t_obs (run (oracle ds') t0 ops'))
+      match timer_new (draw_oracle ds') s' e' vect prio with
+      | TOk t0 => L (t_ok [I (t_time t0)] :: map t_obs (timer_run (draw_oracle ds') t0 ops'))
       | TPanic => L [t_panic]
       | TBadDraw => L [L [I 8]]
       end
